@@ -3,7 +3,7 @@
 // This source code is licensed under the MIT license found in the
 // LICENSE file in the root directory of this source tree.
 
-use alloc::{string::ToString, vec::Vec};
+use alloc::{format, string::ToString, vec::Vec};
 
 use air::{
     proof::{Proof, Queries, Table, TraceOodFrame},
@@ -92,6 +92,14 @@ impl<E: FieldElement, H: ElementHasher<BaseField = E::BaseField>> VerifierChanne
             ConstraintQueries::new(constraint_queries, air, num_unique_queries as usize)?;
 
         // --- parse FRI proofs -------------------------------------------------------------------
+        let num_fri_layers = fri_options.num_fri_layers(lde_domain_size);
+        if fri_proof.num_layers() != num_fri_layers {
+            return Err(VerifierError::ProofDeserializationError(format!(
+                "expected {} FRI layers, but the proof contains {}",
+                num_fri_layers,
+                fri_proof.num_layers()
+            )));
+        }
         let fri_num_partitions = fri_proof.num_partitions();
         let fri_remainder = fri_proof
             .parse_remainder()
